@@ -21,6 +21,7 @@ type c08Spec struct {
 	Alpha []string `json:"alpha,omitempty"`
 	D     int      `json:"d,omitempty"`
 	Word  []string `json:"word,omitempty"`
+	Long  *lwSpec  `json:"long,omitempty"` // a long world (long.go) instead of words
 	GWRise bool    `json:"gw_rise,omitempty"` // groundwater time series: deep during the warm-up, rising above the rooting depth during the word
 }
 
@@ -83,6 +84,10 @@ func c08Specs(tier string, seed int) []c08Spec {
 				}
 			}
 		}
+	}
+	for _, lw := range lwSpecs(tier, seed, false) {
+		lw := lw
+		out = append(out, c08Spec{Long: &lw})
 	}
 	return out
 }
@@ -208,6 +213,12 @@ func c08Run(raw json.RawMessage, c *mc.Ctx) {
 	sp := mc.Decode[c08Spec](raw)
 	root := scratchRoot()
 	defer os.RemoveAll(root)
+	if sp.Long != nil {
+		lwRun(c, *sp.Long, root, nil, func(w *lwInfo) *hermes.VerifProbe {
+			return (&c08Probe{c: c, label: "long world " + w.Name, et: lwDefs()[sp.Long.World].et}).probe()
+		})
+		return
+	}
 	ws := words(sp.Alpha, sp.D)
 	if sp.Word != nil {
 		ws = [][]string{sp.Word}
